@@ -18,6 +18,17 @@ theorem joinFragments_length (fs : List Bytes) (n : Nat) : (joinFragments fs n).
   simp only [joinFragments, List.length_append, List.length_take, List.length_replicate]
   omega
 
+/-- a list of non-empty byte strings has at most as many elements as bytes -/
+theorem length_le_totalLen (xs : List Bytes) (h : ∀ x ∈ xs, 0 < x.length) : xs.length ≤ totalLen xs := by
+  induction xs with
+  | nil => simp
+  | cons a t ih =>
+    have h1 := h a (by simp)
+    have h2 := ih (fun x hx => h x (by simp [hx]))
+    have : totalLen (a :: t) = a.length + totalLen t := by simp [totalLen]
+    simp only [List.length_cons]
+    omega
+
 /-! ### chunks -/
 
 theorem chunks_flatten (k : Nat) (hk : 0 < k) (fuel : Nat) (rest : Bytes) (hf : rest.length ≤ fuel) :
